@@ -56,7 +56,12 @@ func readFindings(path string) []Finding {
 		}
 		f := Finding{Property: m[2], Fixed: m[1] == "fixed"}
 		rest := m[3]
-		if i := strings.Index(rest, " :: "); i >= 0 {
+		i := strings.Index(rest, " :: ")
+		if strings.Contains(rest, " except=") {
+			// the except expression may itself contain a quantifier (`exists i in [..) :: body`)
+			i = strings.LastIndex(rest, " :: ")
+		}
+		if i >= 0 {
 			f.Desc = strings.TrimSpace(rest[i+4:])
 			rest = rest[:i]
 		}
